@@ -233,7 +233,12 @@ type c06ValGen struct {
 	s       *gSchema
 	corrupt float64
 	feats   map[string]bool
+	// objects written by minimal so far: an input type with several non-null fields of its own type makes the minimal value grow
+	// exponentially with the depth, so the filler stops (with null, a corruption like any other) after c06MinimalObjects objects
+	filled int
 }
+
+const c06MinimalObjects = 300
 
 var c06Absent = struct{}{}
 
@@ -401,7 +406,8 @@ func (g *c06ValGen) minimal(t *gType, depth int) any {
 	if d != nil && d.Kind == "enum" {
 		return d.Values[0][0].(string)
 	}
-	if d != nil && d.Kind == "input" && depth < 12 {
+	if d != nil && d.Kind == "input" && depth < 12 && g.filled < c06MinimalObjects {
+		g.filled++
 		obj := map[string]any{}
 		if d.OneOf {
 			obj[d.Fields[0].Name] = g.minimal(d.Fields[0].Type, depth+1)
@@ -1134,6 +1140,14 @@ func runC06(run *Run, replay string) Spec {
 	n := 30_000
 	if run.Tier == "thorough" {
 		n = 2_000_000
+	}
+	if one := os.Getenv("VERIF_C06_CASE"); one != "" { // debugging aid: one case of the stream, printed
+		i, _ := strconv.Atoi(one)
+		c, feats := c06GenCase(subRng(run.Seed, i))
+		b, _ := json.Marshal(c)
+		fmt.Fprintf(os.Stderr, "case %d: %s\n", i, b)
+		c06Check(run, c, feats)
+		return spec
 	}
 	parallelFor(n, 12, func(i int) {
 		if run.NViolations() >= 20 {
